@@ -5,7 +5,7 @@ import re
 KEYWORDS = {'func', 'requires', 'ensures', 'modifies', 'loop', 'invariant', 'decreases', 'writes', 'spec',
             'axiom', 'lemma', 'typeinv', 'effect', 'property', 'wrap', 'track', 'trusted', 'assume',
             'pure', 'ovf', 'replay', 'note', 'havoc', 'package', 'funcvar', 'ghost', 'reads', 'bounded', 'use',
-            'assert', 'cut', 'opaque', 'params', 'deadreturns', 'global', 'globalinv', 'exit', 'entry', 'skip', 'callsite', 'frees'}
+            'assert', 'cut', 'opaque', 'params', 'deadreturns', 'bensures', 'global', 'globalinv', 'exit', 'entry', 'skip', 'callsite', 'frees'}
 
 
 class SpecError(Exception):
@@ -430,6 +430,9 @@ class Specs(object):
                 cur.requires.append(Clause(kw, rest, props, src))
             elif kw == 'ensures':
                 cur.ensures.append(Clause(kw, rest, props, src))
+            elif kw == 'bensures':
+                cur.bensures = getattr(cur, 'bensures', [])
+                cur.bensures.append(Clause(kw, rest, props, src))
             elif kw == 'modifies':
                 if cur.modifies is None:
                     cur.modifies = []
